@@ -197,6 +197,21 @@ def bind_rawnames(programs, dumps):
         raise Infra("annotator failed:\n" + out[-3000:])
     for p in programs:
         for s in p.structs:
+            # does the in-place setter delegate to the functional one (`*self = self.with_x(..)`)?  Then its proof uses with_x's VERIFIED
+            # CONTRACT as a stub (modular): a contract-annotated callee inside a `modifies` proof otherwise does not finish (DESIGN 11.2)
+            try:
+                dtxt = open(dumps[s.name]).read() if s.name in dumps and os.path.exists(str(dumps[s.name])) else str(dumps.get(s.name, ""))
+            except Exception:
+                dtxt = ""
+            for f in s.fields:
+                fb = f.base
+                m = re.search(r"fn\s+set_" + re.escape(fb) + r"\s*\(", dtxt)
+                f.set_calls_with = False
+                if m:
+                    body = dtxt[m.end():m.end() + 1500]
+                    nxt = re.search(r"\bfn\s", body)
+                    body = body[:nxt.start()] if nxt else body
+                    f.set_calls_with = bool(re.search(r"self\s*\.\s*with_" + re.escape(fb) + r"\s*\(", body))
             ip = os.path.join(tmp, s.name + ".json")
             if os.path.exists(ip):
                 inv = json.load(open(ip))
